@@ -167,6 +167,10 @@ def scn(params):
                         body = struct.pack(">H", qid) + b"\x81\x80" + bytes(8)
                 if rng.random() < 0.05:
                     body = body[:rng.randint(0, 11)]       # too short to carry an id
+                elif rng.random() < 0.12:
+                    # a complete message that is a header and nothing else (REFUSED / FORMERR / NOTIMP / SERVFAIL answers need not
+                    # echo the question): exactly 12 bytes
+                    body = body[:2] + bytes([0x81, 0x80 | rng.choice([1, 2, 4, 5])]) + bytes(8)
                 # where the server's forwarding socket lives
                 dst = fsrc
                 if dst is None:
